@@ -107,6 +107,8 @@ def hierarchy(ctx):
         ctx.case(key=['derive', kd]); ctx.replayed += 1
         if not o.get('ok'):
             ctx.violation(dict(kind='conformance', what='deriving a template changed its base template', case=kd, observed=o))
+    from . import c15
+    c15.derive_spec(ctx)       # spec/Derive.tla: BaseUntouched for every edit dictionary, Python and YAML forms
     _hierarchy(ctx)
 
 
